@@ -22,8 +22,8 @@ META = dict(
     technique="stateless exploration of all task schedules of the real dask graph under a controlled scheduler (with mutation monitor) + exhaustive eager/lazy product",
     text="Every combination of builder, 9 potential kinds, exit-plane settings, 6 detector sets, 5 scans and 3 max_batch values is run eagerly "
          "and lazily and compared (values, shape, type, axes, metadata, outcome class); incident waves are rechunked with every composition; "
-         "and for every ensemble case the real task graph is executed under all linear extensions of its abTEM tasks (<= 120 quick / 5040 "
-         "thorough, else all schedules within 1 / 2 deviations) by a scheduler we own, with a per-task input-mutation monitor.",
+         "and for every ensemble case the real task graph is executed under all linear extensions of its abTEM tasks (<= 120 quick / 720 "
+         "thorough, else every completed deviation level 0, 1, 2, 3 that fits a budget of 400 / 1000 runs per graph (quick: levels <= 2)) by a scheduler we own, with a per-task input-mutation monitor.",
     note="Task-atomic interleavings only: pre-emption inside a task is covered by the mutation monitor's commutation argument and a free-running "
          "threaded pass (sampling, reported as such). State the monitor cannot digest (FFTW wisdom, numba caches) is not modelled. Grids 16x12, "
          "<= 4 slices, <= 3 configurations, <= 6 positions. cpu only.",
@@ -67,12 +67,15 @@ def check(ctx):
         combos = [x for x in itertools.product(["fp2", "fp3", "fp2mean", "ae2", "crystal_fp", "atoms", "array"], [None, 1],
                                                ["waves", "pix", "multi", "seg", "flex", "annular"], ["custom", "grid"], [1, 2, "auto"])]
     for p, ep, d, s, mb in combos:
-        sc.append({"p": p, "ep": ep, "d": d, "s": s, "mb": mb, "cap": 120 if q else 5040, "dev": 1 if q else 2})
-    res = ctx.run(sc, "run_schedules", batch=1, rule="C: all linear extensions of the abTEM tasks of the lazy graph (cap 120/5040, else deviation "
-                  "bound 1/2), mutation monitor on every task input", space="C schedules")
+        sc.append({"p": p, "ep": ep, "d": d, "s": s, "mb": mb, "cap": 120 if q else 720, "dev": 2 if q else 3, "max_runs": 400 if q else 1000})
+    res = ctx.run(sc, "run_schedules", batch=1, rule="C: all linear extensions of the abTEM tasks of the lazy graph (cap 120/720, else completed deviation "
+                  "levels within a 400/1000-run budget), mutation monitor on every task input", space="C schedules")
     ctx.extra["schedules_executed"] = sum(r.get("tr", 0) for r in res)
     ctx.extra["schedule_cases_exhaustive"] = sum(1 for r in res if r.get("exhaustive"))
     ctx.extra["schedule_cases_bounded"] = sum(1 for r in res if r.get("exhaustive") is False)
+    import collections
+
+    ctx.extra["schedule_cases_by_completed_deviation_bound"] = dict(collections.Counter(str(r.get("bound")) for r in res if r.get("exhaustive") is False))
     if any(r.get("exhaustive") is False for r in res):
         ctx.cap("some task graphs have more linear extensions than the cap: covered all schedules within the deviation bound instead")
     # D: free-running threads (detector only)
@@ -210,7 +213,7 @@ def run_schedules(c):
 
     viol = []
     try:
-        r = S.explore(execute, cap=c["cap"], deviations=c["dev"], same=same)
+        r = S.explore(execute, cap=c["cap"], deviations=c["dev"], same=same, max_runs=c.get("max_runs"))
     except S.ScheduleDivergence as e:
         return {"viol": [{"key": "schedule/replay-divergence", "msg": "%s (%s)" % (e, c)}], "obs": "divergence", "tr": 1}
     if len(r["outcomes"]) > 1:
@@ -219,8 +222,9 @@ def run_schedules(c):
         viol.append({"key": "schedule/differs-from-synchronous", "msg": "controlled schedules differ from dask's synchronous scheduler (%s)" % (c,)})
     if r["mutations"]:
         viol.append({"key": "schedule/task-mutates-shared-input", "msg": "tasks changed inputs that other tasks read: %r (%s)" % (r["mutations"][:3], c)})
-    return {"viol": viol, "obs": "%d heavy/%d tasks, %d schedules, %s" % (r["heavy"], r["tasks"], r["runs"], "all" if r["exhaustive"] else "dev<=%s" % r["bound"]),
-            "nt": r["heavy"] >= 2, "tr": r["runs"], "st": r["runs"], "ref": r["runs"], "exhaustive": r["exhaustive"]}
+    return {"viol": viol, "obs": "%d heavy/%d tasks, %d schedules, %s" % (r["heavy"], r["tasks"], r["runs"], "all %s linear extensions" % r["linear_extensions"] if r["exhaustive"] else
+                                                                       "all with <=%s deviations %r%s" % (r["bound"], r["level_sizes"], (", level %(deviations)d (%(schedules)d schedules) over budget" % r["skipped_level"]) if r["skipped_level"] else "")),
+            "nt": r["heavy"] >= 2, "tr": r["runs"], "st": r["runs"], "ref": r["runs"], "exhaustive": r["exhaustive"], "bound": r["bound"]}
 
 
 # --------------------------------------------------------------------------------------------- D
